@@ -75,9 +75,10 @@ SideJson(A) == [k \in 1..Len(A) |-> [p |-> IdP(A[k][1]), u |-> IdU(A[k][1]), e |
 Record ==
   LET r == Rule(v_a, v_b)  m == MRule(v_a, v_b) IN
   [id |-> v_idx, a |-> Join(Render(v_a)), b |-> Join(Render(v_b)), sa |-> SideJson(v_a), sb |-> SideJson(v_b),
-   rule |-> r, mrule |-> m, expect |-> ExpectTerm(r, v_a, v_b), inter |-> InterTerm(v_a),
+   rule |-> r, mrule |-> m, expect |-> ExpectTerm(r, v_a, v_b), expect_qt |-> QTargetTerm(r, v_a, v_b), inter |-> InterTerm(v_a),
    tags |-> ConvTags(v_a, v_b), known |-> ConvTags(v_a, v_b) \cap KnownDevs # {}, agrees |-> Agrees(r, m)]
-Header == [magnitudes |-> Magnitudes, array |-> ArrayMags, zeros |-> ZeroMags, zeroarray |-> ZeroArray, kinds |-> MagKinds]
+Header == [magnitudes |-> Magnitudes, array |-> ArrayMags, zeros |-> ZeroMags, zeroarray |-> ZeroArray, kinds |-> MagKinds,
+           target_mags |-> TargetMags, uncertainties |-> Uncertainties]
 EmitInv == Emit /\ Leaf => PrintT(ToJson(Record))
 EmitHeader == Emit /\ v_st = "a" /\ v_a = <<>> => PrintT(ToJson(Header))
 =============================================================================
